@@ -987,6 +987,7 @@ class World:
             "status": None,
             "pre_grads": {},
             "pre_ids": {k for k, i in self.info.items() if i.ids is not None},
+            "pre_member_ids": {k: i.ids for k, i in self.info.items() if i.ids is not None and not i.foreign and not i.stale},
         }
         for k, tt in self.T.items():
             g = tt.grad
@@ -1206,6 +1207,14 @@ class World:
             self.SA.pop(h, None)
             self.a_orig.pop(h, None)
             self.a_entered.pop(h, None)
+        return Outcome("ok")
+
+    def ev_readgrad(self, ev):
+        """the caller reads .grad of some handles (the read schedule of C06); nothing else happens"""
+        for h in ev.get("hs", []):
+            if h in self.T:
+                g = self.T[h].grad
+                del g
         return Outcome("ok")
 
     def ev_sched(self, ev):
